@@ -22,6 +22,7 @@ EXPLANATION = (
     "sampler keeps its bloc and value lists parallel and renormalises. The distributional statements "
     "(frequencies, uniformity) are NOT decided - they need sampling theory and executions."
 )
+EXPLANATION += ' Also decided (prerequisites and later clauses): each bloc receives its own share of the voters (apportionment keyed in the order of the proportions, C14.G1).'
 ASSUMPTIONS = ["numpy.random.choice(p=...) / random.choices(weights=...) draw independently with the given weights in population order (trusted)",
                "iterating the same unmodified frozenset / dict twice yields the same order (CPython guarantee)"]
 TRUSTED = ["numpy.random.choice", "random.choices", "random.random"]
@@ -119,6 +120,16 @@ def d2_metropolis(ctx):
                 m2 = re.fullmatch(r"(\w+)\[next\(iter\((\w+)\[(\w+)\]\)\)\]", den)
                 pair = [n for n in astx.walk_own(f.node) if isinstance(n, ast.Assign) and isinstance(n.targets[0], ast.Tuple) and astx.u(n.value).startswith("swap_indices[")]
                 names = [astx.u(x) for x in pair[0].targets[0].elts] if pair else []
+                if not pair:
+                    # the pair taken straight from a loop over the presampled indices:  for (j1, j2) in swap_indices  /  for i, (j1, j2) in enumerate(swap_indices)
+                    for lp in (n for n in astx.walk_own(f.node) if isinstance(n, ast.For)):
+                        tgt = lp.target
+                        if astx.u(lp.iter) == "enumerate(swap_indices)" and isinstance(tgt, ast.Tuple) and len(tgt.elts) == 2:
+                            tgt = tgt.elts[1]
+                        elif astx.u(lp.iter) != "swap_indices":
+                            continue
+                        if isinstance(tgt, ast.Tuple) and len(tgt.elts) == 2:
+                            names = [astx.u(x) for x in tgt.elts]
                 ok_all = ok_all and bool(m1 and m2) and m1.group(1) == m2.group(1) == f.params[2] and m1.group(2) == m2.group(2) \
                     and names == [m2.group(3), m1.group(3)]
             ctx.check(ok_all, f, defs[0][0] if defs else t, f"{f.short}: acceptance = min(1, support[lower] / support[upper])", d,
